@@ -152,6 +152,7 @@ class Engine:
         self.accessed_param_keys = set()
         self.accessed_key_terms = []
         self.numeric_param_keys = set()
+        self.bound_stack = []       # z3 constants currently bound by an enclosing quantifier / comprehension
         self.loop_counter = {}
         self.current_file = None
 
